@@ -110,5 +110,7 @@ async fn run() -> Result<(), String> {
 fn structured_results_are_sent_in_the_coordinates_of_their_document() {
     std::thread::spawn(|| { std::thread::sleep(Duration::from_secs(90)); eprintln!("WITNESS the server did not answer within 90 s"); std::process::exit(3); });
     let rt = tokio::runtime::Builder::new_multi_thread().enable_all().build().unwrap();
-    if let Err(e) = rt.block_on(run()) { panic!("WITNESS {e}"); }
+    let r = rt.block_on(run());
+    let _ = std::fs::remove_dir_all(std::env::temp_dir().join(format!("c09_session_{}", std::process::id())));
+    if let Err(e) = r { panic!("WITNESS {e}"); }
 }
